@@ -5,7 +5,7 @@ import SdcModel.ScalarsDt
 open Sdc Sdc.Fp64 Sdc.Scalars
 
 /-! driver of the C18 model. Strings travel as `x<hex of utf-8>`; floats as `<neg 0|1> <m> <e>` (value m·2^e).
-    ops: tspy S | tsxml n m e | int S | intxml i | bool S | boolxml 0|1 | decpy S | decxml n c e |
+    ops: tspy S | tsxml n m e | int S | intxml i | bool S | boolxml 0|1 | decpy S | declistpy S | decxml n c e |
          durstr n m e | durpy S | enum S L1 L2 … | dtpy S | dtstr y mo d hh mm ss FRAC eod tz   -/
 
 def hexVal (c : Char) : Option Nat :=
@@ -114,6 +114,9 @@ def stepLine (st : Unit) (line : String) : Unit × String :=
   | ["boolxml", b] => "ok " ++ showStr (boolToXml (b == "1"))
   | ["decpy", s] => match decodeStr s with
     | some s => showRes (fun d => s!"ok {if d.neg then 1 else 0} {d.coeff} {d.exp}") (decToPy s)
+    | none => "bad-op"
+  | ["declistpy", s] => match decodeStr s with
+    | some s => showRes (fun ds => "ok" ++ String.join (ds.map fun d => s!" {if d.neg then 1 else 0}:{d.coeff}:{d.exp}")) (decListToPy s)
     | none => "bad-op"
   | ["decxml", n, c, e] => match n.toNat?, c.toNat?, e.toInt? with
     | some n, some c, some e => "ok " ++ showStr (decToXml ⟨n == 1, c, e⟩)
